@@ -13,7 +13,7 @@ from simkit import fakes3
 KINDS = ['memory', 'file', 's3']
 S3_PREFIXES = ['a', 'ab', 'a/b', 'b', '']
 # prefixes spelt with the words of the cassette's own key layout (tape_recorder_recordings/{full,metadata}/<id>)
-S3_LAYOUT_PREFIXES = ['metadata', 'svc/metadata', 'metadata/v2', 'full']
+S3_LAYOUT_PREFIXES = ['metadata', 'svc/metadata', 'metadata/v2', 'full', 'env{prod}', 'tenant-{0}/{}', '50%d']    # ... and with characters key templates / formats interpret
 SCRATCH = '/dev/shm' if os.path.isdir('/dev/shm') and os.access('/dev/shm', os.W_OK) else tempfile.gettempdir()
 
 
